@@ -18,7 +18,7 @@ Executable model of `ABCARMPropertyGraph.generate_adms` (fim/graph/resources/abc
 * `Store`, `generateAdmsS` — the same run written as the sequence of store operations the code
   performs (clone under the new graph id, rewrite, queries on `self`, deletes), so that
   "the ARM is untouched" and "the result is `genAdm`" are theorems rather than the shape of the model.
-* `rekey` — `rewrite_delegations`.
+* `rekey` — `rewrite_delegations`; `rekeyS` — the same on one graph of the store.
 
 No Mathlib. The trace tables and the number of passes (`Cfg.linkTraces`, `Cfg.linkRounds`, `Cfg.ownerTraces`) come from
 `Generated/ArmCfg.lean` (gen/armcfg.py: behavioural probing of the code).
@@ -326,6 +326,12 @@ def rekeyNodes (x : String) : List Node → Bool × List Node
 def rekey (g : G) (x : String) : Bool × G :=
   let r := rekeyNodes x g.nodes
   (r.1, { g with nodes := r.2 })
+
+/-- `rewrite_delegations(real_adm_id=new)` on the graph stored under `x` (`none`: no such graph - the node listing raises) -/
+def rekeyS (s : Store) (x new : String) : Option (Bool × Store) :=
+  match s.get x with
+  | none => none
+  | some g => let r := rekey g new; some (r.1, s.set x r.2)
 
 /-! ## The configuration extracted from the source -/
 
